@@ -23,11 +23,11 @@ func (c *CriteriaConcealment) Spec_addCriterion(
 	bounding *criteria_bounding.CriteriaBounding,
 ) (*model.DecisionMakingParams, []AddedCriterion) {
 	generator := c.generatorSource(parsedProps.RandomSeed)
-	criterionBase := c.generateNewCriterionBase(listener, parsedProps.NewCriterionScaling, props, originalParams, resParams)
-	addResult := generateCriterionValuesForAlternatives(criterionBase.newCriterion, resParams, generator, bounding)
+	criterionBase := c.Spec_generateNewCriterionBase(listener, parsedProps.NewCriterionScaling, props, originalParams, resParams)
+	addResult := Spec_generateCriterionValuesForAlternatives(criterionBase.newCriterion, resParams, generator, bounding)
 	addedCriterionParams := (*listener).OnCriterionAdded(criterionBase.newCriterion, criterionBase.referenceCriterion, resParams.MethodParameters, generator)
 	finalParams := (*listener).Merge(resParams.MethodParameters, addedCriterionParams)
-	newCriteria := resParams.Criteria.Add(criterionBase.newCriterion)
+	newCriteria := resParams.Criteria.Spec_Add(criterionBase.newCriterion)
 	return &model.DecisionMakingParams{
 			NotConsideredAlternatives: *addResult.notConsideredAlternatives,
 			ConsideredAlternatives:    *addResult.consideredAlternatives,
@@ -48,12 +48,12 @@ func (c *CriteriaConcealment) Spec_generateNewCriterionBase(
 	props *model.BiasProps,
 	originalParams, currentParams *model.DecisionMakingParams,
 ) newCriterionBase {
-	refCriterionProvider := c.referenceCriterionManager.ForParams(props)
+	refCriterionProvider := c.referenceCriterionManager.Spec_ForParams(props)
 	rankedCriteria := (*listener).RankCriteriaAscending(currentParams)
 	referenceCriterion := refCriterionProvider.Provide(rankedCriteria)
-	valRange := getCriterionValueRange(currentParams, referenceCriterion, scaling)
+	valRange := Spec_getCriterionValueRange(currentParams, referenceCriterion, scaling)
 	newCriterion := model.Criterion{
-		Id:          newConcealedCriterionName(&currentParams.Criteria),
+		Id:          Spec_newConcealedCriterionName(&currentParams.Criteria),
 		Type:        model.Gain,
 		ValuesRange: valRange,
 	}
@@ -64,7 +64,7 @@ func (c *CriteriaConcealment) Spec_generateNewCriterionBase(
 }
 
 func Spec_newConcealedCriterionName(criteria *model.Criteria) string {
-	return criteria.NotUsedName(baseConcealedCriterionName)
+	return criteria.Spec_NotUsedName(baseConcealedCriterionName)
 }
 
 func Spec_generateCriterionValuesForAlternatives(
@@ -73,11 +73,11 @@ func Spec_generateCriterionValuesForAlternatives(
 	valueGenerator utils.ValueGenerator,
 	bounding *criteria_bounding.CriteriaBounding,
 ) *addCriterionResult {
-	generator := utils.NewValueInRangeGenerator(valueGenerator, newCriterion.ValuesRange)
-	sortedAlternatives, alternativesValues := assignNewCriterionToAlternatives(resParams, generator, newCriterion, bounding)
+	generator := utils.Spec_NewValueInRangeGenerator(valueGenerator, newCriterion.ValuesRange)
+	sortedAlternatives, alternativesValues := Spec_assignNewCriterionToAlternatives(resParams, generator, newCriterion, bounding)
 	return &addCriterionResult{
-		notConsideredAlternatives: model.UpdateAlternatives(&resParams.NotConsideredAlternatives, sortedAlternatives),
-		consideredAlternatives:    model.UpdateAlternatives(&resParams.ConsideredAlternatives, sortedAlternatives),
+		notConsideredAlternatives: model.Spec_UpdateAlternatives(&resParams.NotConsideredAlternatives, sortedAlternatives),
+		consideredAlternatives:    model.Spec_UpdateAlternatives(&resParams.ConsideredAlternatives, sortedAlternatives),
 		alternativesValues:        alternativesValues,
 	}
 }
@@ -88,14 +88,14 @@ func Spec_assignNewCriterionToAlternatives(
 	newCriterion *model.Criterion,
 	bounding *criteria_bounding.CriteriaBounding,
 ) (*[]model.AlternativeWithCriteria, model.Weights) {
-	allAlternatives := resParams.AllAlternatives()
-	sortedAlternatives := model.SortAlternativesByName(&allAlternatives)
+	allAlternatives := resParams.Spec_AllAlternatives()
+	sortedAlternatives := model.Spec_SortAlternativesByName(&allAlternatives)
 	alternativesValues := make(model.Weights, len(*sortedAlternatives))
-	boundingInRange := bounding.WithRange(newCriterion.ValuesRange)
-	sortedAlternatives = model.AddCriterionToAlternatives(sortedAlternatives, newCriterion,
+	boundingInRange := bounding.Spec_WithRange(newCriterion.ValuesRange)
+	sortedAlternatives = model.Spec_AddCriterionToAlternatives(sortedAlternatives, newCriterion,
 		func(a *model.AlternativeWithCriteria) model.Weight {
 			newValue := generator()
-			newValue = boundingInRange.BoundValue(newValue)
+			newValue = boundingInRange.Spec_BoundValue(newValue)
 			alternativesValues[a.Id] = newValue
 			return newValue
 		})
@@ -103,7 +103,7 @@ func Spec_assignNewCriterionToAlternatives(
 }
 
 func Spec_getCriterionValueRange(originalParams *model.DecisionMakingParams, referenceCriterion *model.Criterion, scaling float64) *utils.ValueRange {
-	allAlternatives := originalParams.AllAlternatives()
-	valRange := model.CriteriaValuesRange(&allAlternatives, referenceCriterion).ScaleEqually(scaling)
+	allAlternatives := originalParams.Spec_AllAlternatives()
+	valRange := model.Spec_CriteriaValuesRange(&allAlternatives, referenceCriterion).Spec_ScaleEqually(scaling)
 	return valRange
 }
